@@ -44,3 +44,33 @@ Fixpoint split_crlf (cur:bytes) (s:bytes) : list bytes :=
   | b :: r => split_crlf (b :: cur) r
   end.
 Definition has_ctl (l:bytes) : bool := existsb (fun b => (b =? 13) || (b =? 10)) l.
+
+(* ---- Sec-WebSocket-Extensions (RFC 6455 section 9.1, RFC 7230 section 7 lists) ---- *)
+(* RFC 7230 list splitting that knows quoted strings: a comma inside "..." (with backslash
+   escapes) does not separate elements *)
+Fixpoint split_list_q (inq esc:bool) (cur:bytes) (s:bytes) : list bytes :=
+  match s with
+  | [] => [rev' cur]
+  | b :: r =>
+      if esc then split_list_q inq false (b :: cur) r
+      else if inq then
+        if b =? 92 then split_list_q true true (b :: cur) r
+        else if b =? 34 then split_list_q false false (b :: cur) r
+        else split_list_q true false (b :: cur) r
+      else if b =? 34 then split_list_q true false (b :: cur) r
+      else if b =? 44 then rev' cur :: split_list_q false false [] r
+      else split_list_q false false (b :: cur) r
+  end.
+
+Definition first (l:list bytes) : bytes := match l with x :: _ => x | [] => [] end.
+
+Definition pmd_token : bytes :=   (* "permessage-deflate" *)
+  [112;101;114;109;101;115;115;97;103;101;45;100;101;102;108;97;116;101].
+
+(* the name of one list element: what precedes the first ';', without surrounding OWS *)
+Definition ext_elem_name (e:bytes) : bytes := trim_ows (first (split_on 59 [] e)).
+
+(* "the client offered permessage-deflate": some element of some header line has that name *)
+Definition offers_pmd (lines:list bytes) : bool :=
+  existsb (fun l => existsb (fun e => beq (trim_ows (first (split_on 59 [] e))) pmd_token)
+                            (split_list_q false false [] l)) lines.
